@@ -11,6 +11,7 @@ import Proofs.ExtractShapeTie
 import Proofs.ExtractShapeAssoc
 import Proofs.ExtractShapeScope
 import Proofs.ExtractShapeClass
+import Proofs.ExtractShapeAttrs
 
 /-!
   C14 — Component extraction mirrors the BridgePoint class model.
@@ -1521,6 +1522,65 @@ example : True := by
     { id := 1, kl := "ORD", attrs := [⟨1, "Id", .base 1⟩, ⟨2, "Code", .base 1⟩, ⟨3, "Total", .derived 1⟩],
       idents := [⟨0, [1]⟩, ⟨2, [2]⟩, ⟨1, [2, 3]⟩], parent := .none } (fun _ _ _ _ => .error .stuck) 0 false
     ((Loc.empty.set "o_obj" (.inst (some CI.obj))).set "derived_attributes" (.bool false)) [] rfl rfl
+  trivial
+
+end PyxProps.C14
+
+/-! ==========================================================================================================
+  SOURCE TIE, round 6 (builder extract-shape) — appended section.  Proofs/ExtractShapeAttrs.lean: the attribute loop of `mk_class`
+  (`while o_attr: …` along R103 'precedes') of the generated IR against `sattr` / `classOf … .attrs`, over the population
+  `attrWorld` (the attributes of the class by position on the R103 chain = the model's `Class.attrs`; hand-written).  The two type
+  calls get_attribute_type / _get_data_type_name are read through an ORACLE (`TyOracle`: they return the model's `attrTy`;
+  `_get_data_type_name` itself is tied by `type_mapping_as_in_source`, get_attribute_type is not).  Not covered: the choice of the
+  first attribute (`first_filter`: the one that succeeds none) and the hand-over `list(attributes)` to define_class.
+  ========================================================================================================== -/
+namespace PyxProps.C14
+open Pyx.Extract Pyx.XShape Pyx.Gen.ExtractShape
+
+/-- the attribute loop of mk_class, interpreted from the IR generated from the source, for EVERY class of every diagram and both
+    settings of `derived_attributes`, started at the first attribute of the R103 chain with `attributes = list()`: it terminates
+    (fuel above the number of attributes), defines nothing, and leaves in `attributes`, in R103 order, exactly the (name, type)
+    pairs of the model's `(classOf d drv c).attrs` — a derived attribute is skipped unless requested, an attribute without a
+    supported type is skipped, the pair is (o_attr.Name, ty) — given that the two type calls return the model's type (`TyOracle`) -/
+theorem class_attributes_as_in_source (d : ClassDiagram) (c : Class) (cf : CallF AI) (fuel : Nat) (O : TyOracle d c cf)
+    (drv : Bool) (L : Loc AI) (C : Calls AI) (hf : c.attrs.length < fuel)
+    (h1 : L "o_attr" = .inst (if c.attrs = [] then none else some (AI.pos 0)))
+    (h2 : L "derived_attributes" = .bool drv) (h3 : L "attributes" = .strs []) :
+    ∃ L', iStmt (attrWorld c) cf fuel
+        (match mk_class.body with
+         | [_, _, s, _, _, _, _, _] => s
+         | _ => .pass) L C = .ok (L', C, .next) ∧
+      L' "attributes" = accVal ((classOf d drv c).attrs.map pairOf) := by
+  obtain ⟨L', hL, hacc⟩ := attrLoop d c cf fuel O drv c.attrs [] L C [] fuel (by simp) (by simpa using h1) h2 h3 hf
+  refine ⟨L', ?_, by simpa [classOf] using hacc⟩
+  show iStmt (attrWorld c) cf fuel (.whileVar "o_attr" attrBody) L C = _
+  simp only [iStmt]
+  exact hL
+
+/-- applied: Id (integer), Total (derived, left out), Note (no supported type, left out), Code (string) — with an oracle built from
+    the model's own `attrTy` -/
+def tieAttrD : ClassDiagram :=
+  { containers := [], dts := [⟨1, "integer", .core 2, .none⟩, ⟨2, "string", .core 4, .none⟩, ⟨3, "odd", .other, .none⟩],
+    classes := [], rels := [] }
+def tieAttrC : Class :=
+  { id := 1, kl := "ORD", attrs := [⟨1, "Id", .base 1⟩, ⟨2, "Total", .derived 1⟩, ⟨3, "Note", .base 3⟩, ⟨4, "Code", .base 2⟩],
+    idents := [], parent := .none }
+example : (classOf tieAttrD false tieAttrC).attrs = [⟨"Id", "INTEGER"⟩, ⟨"Code", "STRING"⟩] := by decide +kernel
+def tieAttrCf : CallF AI := fun f args _ C =>
+  if f = "get_attribute_type" then
+    (match args with
+     | [.inst (some (AI.pos k))] => .ok (.nat k, C)
+     | _ => .error .stuck)
+  else if f = "_get_data_type_name" then
+    (match args with
+     | [.nat k] => .ok (tyVal ((tieAttrC.attrs[k]?).bind (attrTy tieAttrD)), C)
+     | _ => .error .stuck)
+  else .error .stuck
+example : True := by
+  have _h := class_attributes_as_in_source tieAttrD tieAttrC tieAttrCf 5
+    { tok := fun k => .nat k, h1 := fun _ _ _ => rfl, h2 := fun _ _ _ => rfl } false
+    (((Loc.empty.set "o_attr" (.inst (some (AI.pos 0)))).set "derived_attributes" (.bool false)).set "attributes" (.strs [])) []
+    (by decide) (by simp [Loc.set, tieAttrC]) (by simp [Loc.set]) (by simp [Loc.set])
   trivial
 
 end PyxProps.C14
